@@ -210,7 +210,7 @@ def classes_of_json(v):
 # ------------------------------------------------------------------ generators
 
 STR_POOL = [b"", b"a", b"ab", b"abc", b"abcabc", b"aaa", b" ", b"  a b  ", b"\t\n", b"a\nb", "é".encode(), "ée".encode(),
-            "世界".encode(), "😀".encode(), "a😀b".encode(), b"\xff", b"\xc3", b"a\xffb", b"\xed\xa0\x80", b"\x00", b"a\x00b",
+            "世界".encode(), "😀".encode(), "a😀b".encode(), "a\ufffdb".encode(), "\ufffd".encode(), b"ab\xffcd", b"\xff", b"\xc3", b"a\xffb", b"\xed\xa0\x80", b"\x00", b"a\x00b",
             b"A", b"ABC", "İ".encode(), "ß".encode(), "ǅ".encode(), "ſ".encode(), "K".encode(), "ς".encode(), b",", b"a,b,,c",
             b"/", b"../a", b"/a/b/../c", b"a/b.txt", b".", b"..", b"a:b", b"/a:/b", b"a//b/", b".bashrc", b"a.tar.gz",
             b"[a-z]*", b"a+", b"(", b"*", b"?", b"[", b"\\", b"[]a]", b"[^a]", b"a-c", b"%41", b"%zz", b"+", b"a b+c",
@@ -325,7 +325,7 @@ def gen_arg(rng, fname, kind, ctx):
             asc = [c for c in first if c < 0x80] or [97]
             b = bytes([rng.choice(asc) if rng.chance(1, 2) else 32 + rng.below(95)])
         elif r < 75:
-            b = rng.choice(["é", "世", "😀", "ß", "\u0080"]).encode()
+            b = rng.choice(["é", "世", "😀", "ß", "\u0080", "\ufffd", "\ufffd", "\u07ff", "\U0010ffff"]).encode()
         elif r < 85:
             b = bytes([0x80 + rng.below(0x80)])
         else:
@@ -806,6 +806,12 @@ def _body(res, quick, obs, model, records, proved, repo):
         for v in [f[1] for f in corpus["D"] if f[0] == codec] + gen_malformed(rng, codec, nmal):
             for route in ("api", "script"):
                 add("D", [codec, route, v], {"codec": codec, "route": route, "value": v})
+    # histories: several values encoded before any is decoded
+    for codec in BYTE_CODECS:
+        pool_vals = gen_codec_values(rng, max(12, ncodec // 8))
+        for k in range(0, len(pool_vals) - 2, 3):
+            for route in ("api", "script"):
+                add("H", [codec, route, "|".join(pool_vals[k:k + 3])], {"codec": codec, "route": route, "values": pool_vals[k:k + 3]})
     jvals = [gen_json_value(rng, 3) for _ in range(njson)]
     for v in [f[1] for f in corpus["C"] if f[0] == "json"] + jvals:
         for route in ("api", "script"):
@@ -853,7 +859,7 @@ def _body(res, quick, obs, model, records, proved, repo):
     corr = []
     nontrivial = set()
     observations = {"wrapper_accepts_more_than_specified": 0, "string_came_back_as_byte_slice": 0, "int_came_back_as_float": 0, "out_of_domain_value_returned": 0}
-    stats = {"W": 0, "C": 0, "D": 0, "J": 0, "K": 0, "in_kind": 0, "rejected": 0, "go_errors": 0, "model_compared": 0}
+    stats = {"W": 0, "C": 0, "D": 0, "J": 0, "K": 0, "H": 0, "in_kind": 0, "rejected": 0, "go_errors": 0, "model_compared": 0}
     samples = []
 
     def viol(cid, why, klass=None):
@@ -992,6 +998,24 @@ def _body(res, quick, obs, model, records, proved, repo):
                         diff(cid, "encode", ie, me)
                     if md != idc:
                         diff(cid, "decode(encode v)", idc, md)
+        elif kind == "H":
+            codec = info["codec"]
+            for i, vt in enumerate(info["values"]):
+                v = parse_one(vt)
+                enc, now, dec = ob.get("enc%d" % i, "?"), ob.get("now%d" % i, "?"), ob.get("dec%d" % i, "?")
+                if enc.startswith("P:") or dec.startswith("P:"):
+                    viol(cid, "panic in %s codec (history): enc=%s dec=%s" % (codec, enc[:80], dec[:80]))
+                    break
+                if v[0] not in ("s", "b", "U") or enc.startswith("e:"):
+                    continue
+                if now != enc:
+                    viol(cid, "the value returned by encode(v%d, %s) changed after later encodes: %s -> %s" % (i, codec, enc[:80], now[:80]))
+                    break
+                if dec.startswith("e:") or dec == "-" or not veq(parse_one(dec), v):
+                    viol(cid, "decode(encode(v%d)) differs from v%d when other values were encoded in between: got %s" % (i, i, dec[:120]))
+                    break
+            else:
+                nontrivial.add(("history", codec, "|".join(info["values"])))
         elif kind == "D":
             codec = info["codec"]
             v = parse_one(info["value"])
